@@ -82,6 +82,10 @@ pub enum Case {
     /// Standard / UniformRand samplers driven by a generated RNG stream: `prefix` is
     /// replayed first, then ChaCha20 seeded with `seed` (so rejection loops terminate)
     Sampler { affine: bool, uniform_rand: bool, prefix: HexBytes, seed: u64 },
+    /// a degenerate random stream: a short cycle of 64-bit words repeated for `draws` words (a stuck or
+    /// short-period generator), after which the stream continues as ChaCha20(seed) so that a correct
+    /// rejection sampler always terminates
+    SamplerStuck { affine: bool, uniform_rand: bool, cycle: Vec<u64>, draws: u32, seed: u64 },
     FromRandomBytes { family: String, bytes: HexBytes },
     Batch { rs: Vec<Recipe>, op: BatchOp },
     Conv { r: Recipe, op: ConvOp },
@@ -454,6 +458,8 @@ impl Property for C06 {
         prop_oneof![
             3 => (bk(), bytes32_near()).prop_map(|(bk, b)| Case::Decode { bk, b }),
             3 => (any::<bool>(), any::<bool>(), gen::bytes(0..=256usize), any::<u64>()).prop_map(|(affine, uniform_rand, p, seed)| Case::Sampler { affine, uniform_rand, prefix: HexBytes(p), seed }),
+            1 => (any::<bool>(), any::<bool>(), gen::limb_vec(1..=3usize), prop_oneof![1 => 0u32..1500, 3 => 1500u32..6000], any::<u64>())
+                .prop_map(|(affine, uniform_rand, cycle, draws, seed)| Case::SamplerStuck { affine, uniform_rand, cycle, draws, seed }),
             5 => frb_bytes().prop_map(|(family, b)| Case::FromRandomBytes { family, bytes: HexBytes(b) }),
             3 => (proptest::collection::vec(recipe::recipe_small(), 0..=6), any::<bool>()).prop_map(|(rs, w)| Case::Batch { rs, op: if w { BatchOp::NormalizeBatch } else { BatchOp::BatchConvertToMulBase } }),
             3 => (recipe::recipe(), any::<u16>()).prop_map(|(r, i)| Case::Conv { r, op: CONVS[pick(i, CONVS.len())] }),
@@ -529,6 +535,10 @@ impl Property for C06 {
                 v.push(Case::Sampler { affine: a, uniform_rand: u, prefix: HexBytes(vec![]), seed });
                 v.push(Case::Sampler { affine: a, uniform_rand: u, prefix: HexBytes(vec![0; 64]), seed });
                 v.push(Case::Sampler { affine: a, uniform_rand: u, prefix: HexBytes(vec![0xff; 64]), seed });
+                for w in [0u64, 1, u64::MAX, 0x0123_4567_89ab_cdef, 0x8000_0000_0000_0000, 0x5555_5555_5555_5555] {
+                    v.push(Case::SamplerStuck { affine: a, uniform_rand: u, cycle: vec![w], draws: 4000, seed });
+                }
+                v.push(Case::SamplerStuck { affine: a, uniform_rand: u, cycle: vec![3, u64::MAX - 2], draws: 4000, seed });
             }
         }
         v
@@ -550,6 +560,16 @@ impl Property for C06 {
                 })
             }
             Case::Sampler { affine, uniform_rand, prefix, seed } => sampler_case(*affine, *uniform_rand, &prefix.0, *seed, ctx),
+            Case::SamplerStuck { affine, uniform_rand, cycle, draws, seed } => {
+                let mut prefix = Vec::with_capacity(*draws as usize * 8);
+                if !cycle.is_empty() {
+                    for i in 0..(*draws).min(20_000) as usize {
+                        prefix.extend_from_slice(&cycle[i % cycle.len()].to_le_bytes());
+                    }
+                }
+                ctx.class(&format!("sampler:stuck-stream:cycle{}:{}", cycle.len(), if *draws >= 1500 { "long" } else { "short" }));
+                sampler_case(*affine, *uniform_rand, &prefix, *seed, ctx)
+            }
             Case::FromRandomBytes { family, bytes } => {
                 ctx.class(&format!("from_random_bytes:{family}"));
                 from_random_bytes_case(&bytes.0, ctx)
@@ -589,6 +609,19 @@ impl Property for C06 {
                         a[i] = s;
                         v.push(Case::Batch { rs: a, op: *op });
                     }
+                }
+            }
+            Case::SamplerStuck { affine, uniform_rand, cycle, draws, seed } => {
+                for d in [*draws / 2, draws.saturating_sub(100), 2000, 1400] {
+                    if d < *draws {
+                        v.push(Case::SamplerStuck { affine: *affine, uniform_rand: *uniform_rand, cycle: cycle.clone(), draws: d, seed: *seed });
+                    }
+                }
+                if cycle.len() > 1 {
+                    v.push(Case::SamplerStuck { affine: *affine, uniform_rand: *uniform_rand, cycle: vec![cycle[0]], draws: *draws, seed: *seed });
+                }
+                if *seed != 0 {
+                    v.push(Case::SamplerStuck { affine: *affine, uniform_rand: *uniform_rand, cycle: cycle.clone(), draws: *draws, seed: 0 });
                 }
             }
             Case::Conv { r, op } => {
